@@ -180,8 +180,15 @@ pub fn check_source(lang_name: &str, name: &str, src: &str, rng: &mut Rng, rep: 
           pattr.clone()
         };
         let all_nonzero = sibs.iter().all(|s| !recs[*s].node.range().is_empty());
-        if all_nonzero {
-          let pos = sibs.iter().position(|s| *s == i).unwrap();
+        let pos = sibs.iter().position(|s| *s == i).unwrap();
+        // work limit (not a verdict): next()/prev() are O(k) under a parent with k children, the iterated
+        // chains O(k^2) per child; under very wide parents only the ends and a regular sample are walked
+        let k = sibs.len();
+        let sampled_out = k > 200 && !(pos < 3 || pos + 3 >= k || pos % (k / 12) == 0);
+        if sampled_out {
+          rep.count("sibling_checks_sampled_out_wide_parent", 1);
+        }
+        if all_nonzero && !sampled_out {
           let want_next: Vec<_> = sibs[pos + 1..].iter().map(|s| key(&recs[*s].node)).collect();
           let want_prev: Vec<_> = sibs[..pos].iter().rev().map(|s| key(&recs[*s].node)).collect();
           // iterated next()/prev()
